@@ -24,6 +24,10 @@ def build(ctx, rule):
                 m.f = f
                 m.sort_call = n
                 m.list_var = norm(n.func.value)
+            if isinstance(n, ast.Assign) and isinstance(n.value, ast.Call) and isinstance(n.value.func, ast.Name) and n.value.func.id == "sorted" and any(k.arg == "key" for k in n.value.keywords) and n.value.args and norm(n.targets[0]) == norm(n.value.args[0]):
+                m.f = f
+                m.sort_call = n.value
+                m.list_var = norm(n.targets[0])
     if m.f is None:
         raise AnalysisError(rule, mod.relpath, "cannot find the function that sorts the alignment list")
     ctx.analysed_func(m.f)
@@ -53,7 +57,8 @@ def build(ctx, rule):
     m.ctor_kw = {k.arg: k.value for k in m.ctor.keywords} if m.ctor is not None else {}
     # namedtuple fields for positional construction
     if m.ctor is not None and m.ctor.args:
-        for n in walk_own(f.node):
+        nt_defs = list(walk_own(f.node)) + [ast.Assign(targets=[ast.Name(id=k, ctx=ast.Store())], value=v) for k, v in mod.consts.items()]
+        for n in nt_defs:
             if isinstance(n, ast.Assign) and isinstance(n.value, ast.Call) and norm(n.value.func).endswith("namedtuple") and norm(n.targets[0]) == norm(m.ctor.func):
                 if len(n.value.args) >= 2 and isinstance(n.value.args[1], (ast.List, ast.Tuple)):
                     fields = [const_value(e) for e in n.value.args[1].elts]
@@ -71,6 +76,9 @@ def build(ctx, rule):
     if m.unpack is None:
         raise AnalysisError(rule, f.where(m.pass1), "cannot find the key-extraction call in the read pass")
     ctx.analysed_func(m.pa)
+    from ..core import inlined
+
+    m.pa = inlined(repo, m.pa)
     m.p1_paths = enum_paths(m.pass1.body, rule=rule, where=f.where(m.pass1))
     m.p2_paths = enum_paths(m.pass2.body, rule=rule, where=f.where(m.pass2))
     # writer handle and index parameters
